@@ -51,6 +51,7 @@ static Plan generate(uint64_t seed, uint64_t run, const std::map<std::string, st
         default: h = rand_from(r, "0123456789.xXaAfF", r.range(3, 17)); break;
       }
       if (r.chance(1, 6)) h += ".";
+      if (r.chance(1, 4)) h = gen_ipv4ish_host(r);  // hex / octal / mixed-case numbers, domain prefix
       add(make_parse("http://" + h + "/", std::nullopt));
       add(make_canparse("https://" + h + ":80/x", std::nullopt));
       add(make_set(S_HOSTNAME, h));
@@ -64,6 +65,7 @@ static Plan generate(uint64_t seed, uint64_t run, const std::map<std::string, st
         h = pick(r, good);
         if (r.chance(1, 2)) h[1 + r.below(uint32_t(h.size() - 2))] = "0123456789abcdef:."[r.below(18)];
       }
+      if (r.chance(1, 2)) h = gen_ipv6_host(r);  // built from the grammar: mostly valid, every "::" position, IPv4 tails
       add(make_parse("http://" + h + "/p", std::nullopt));
       add(make_parse("foo://" + h, std::nullopt));
       add(make_canparse("wss://" + h + ":443", std::nullopt));
